@@ -685,6 +685,17 @@ example : (stftAxes 32 0 (1 / 8) (1 / 2) (11 / 16)).toOption.map (fun a => (a.np
     some (4, -1, 5 / 8) := by decide +kernel
 example : stftAxes 32 0 (1 / 8) (1 / 16) (1 / 32) = .error .value := by decide +kernel   -- window < 1 sample
 example : stftAxes 32 0 (1 / 8) (17 / 16) (1 / 64) = .error .value := by decide +kernel  -- noverlap = nperseg
+-- the traced plans on the examples above (non-vacuity of the `…_factors` theorems and of `C15_clip_channels`)
+example : ∀ f ∈ demoFile, f.length = 2 := by decide
+example : (clipPlan 4 (5 / 8) (17 / 8)).toTuple = (2, 6, 1 / 2, 1 / 4, 6, 1 / 4) := by decide +kernel
+example : (recordingPlan 4 (3 / 2 + 1 / 10)).toTuple = (0, 1 / 4, 6, 1 / 4) := by decide +kernel
+example : (rangePlan (1 / 2) (1 / 2) (1 / 4)).toTuple = (1 / 2, 1 / 4, 0, 1 / 4) := by decide +kernel
+example : resamplePlanTuple 100 (1 / 8192) 1355 = (16, 1 / 1355) := by decide +kernel
+example : (stftPlan (1 / 8) (17 / 16) (13 / 32) 2).toTuple = (8, 8, 5, 1, 2, 3 / 8) := by decide +kernel
+-- a first stage that realises its advertised step exactly (96 samples at 48 kHz to 16 kHz: 32 points) can be
+-- resampled again truthfully
+example : (resampleAxis 32 0 (1 / 16000) (1 / 16000) 160000).toOption.map (fun a => (a.coords.length, axisOk 0 a)) =
+    some (320, true) := by decide +kernel
 
 
 end SE.Proofs.C15
